@@ -317,8 +317,90 @@ def history_list(tier):
     return out
 
 
+def _dbsplit(task, rec):
+    """Database.split (the partition the library itself makes for validation): for every answer of the shuffle it asks for
+    (all row permutations for 5 rows; rotations and the reversal for 7 and 9 rows) and every number of slices, the
+    validation sets are disjoint and cover the table, every (estimation, validation) pair partitions the table, and
+    LL / gradient of the two parts add up to those of the whole table."""
+    import numpy as np
+    import pandas as pd
+    import biogeme.database as bdb
+    from vf.engine import make_biogeme
+    n, tier = task['n'], task['tier']
+    model, weight = 'smooth', 'column'
+    rows = _history_rows(n)
+    free = sorted(R.leaves(MODELS[model], 'beta'))
+    x = PARAMS[0]
+    spec = {nm: (v, None, None, 0) for nm, v in PARAMS[0].items()}
+    if n <= 5:
+        perms = list(itertools.permutations(range(n)))
+    else:
+        perms = [tuple(range(n)), tuple(reversed(range(n)))] + [tuple(list(range(k, n)) + list(range(k))) for k in range(1, n)]
+
+    def ll_grad(frame):
+        if len(frame) == 0:
+            return 0.0, [0.0] * len(free)
+        d = bdb.Database('part', frame.copy())
+        ll_e = R.Builder(spec).build(MODELS[model])
+        w_e = R.Builder(spec).build(WEIGHTS[weight])
+        b = make_biogeme(d, {'log_like': ll_e, 'weight': w_e}, number_of_threads=2)
+        names = list(b.free_beta_names)
+        out = b.calculate_likelihood_and_derivatives(np.array([x[nm] for nm in names]), scaled=False, hessian=False, bhhh=False)
+        return float(out.function), [float(v) for v in out.gradient]
+
+    ref = reference(model, weight, rows, x, free)
+    frame0 = pd.DataFrame({c: [float(r[c]) for r in rows] for c in COLS})
+    frame0['grp'] = [k // 2 for k in range(n)]
+    saved_sample, saved_shuffle = pd.DataFrame.sample, np.random.shuffle
+    for grouped in (False, True):
+        nunits = n if not grouped else (n + 1) // 2
+        for slices in range(2, min(nunits, 5) + 1):
+            for perm in (perms if not grouped else list(itertools.permutations(range(nunits)))):
+                case = dict(part='dbsplit', n=n, slices=slices, perm=list(perm), grouped=grouped, tier=tier)
+                key = ('dbsplit', n, slices, perm, grouped)
+
+                def bad(clause, what):
+                    rec.violation(f'C04|database-split:{clause}|{"groups" if grouped else "rows"}', what + f' [{n} rows, {slices} slices, shuffle answer {perm}]', case)
+
+                db = bdb.Database('whole', frame0.copy())
+                pd.DataFrame.sample = lambda self, *a, **kw: self.iloc[list(perm)]
+
+                def shuffle(arr, _perm=perm):
+                    arr[:] = np.asarray(arr)[list(_perm)]
+                np.random.shuffle = shuffle
+                try:
+                    folds = db.split(slices, groups='grp' if grouped else None)
+                except Exception as e:
+                    rec.case(key, ('raised', type(e).__name__), outcome='raised')
+                    bad(f'raised-{type(e).__name__}', str(e)[:200])
+                    continue
+                finally:
+                    pd.DataFrame.sample, np.random.shuffle = saved_sample, saved_shuffle
+                allidx = sorted(frame0.index)
+                val_idx = sorted(i for f in folds for i in f.validation.index)
+                rec.case(key, (n, slices, perm, grouped, [sorted(f.validation.index) for f in folds]), outcome=('split', slices, grouped))
+                if len(folds) != slices:
+                    bad('number-of-folds', f'{len(folds)} folds')
+                    continue
+                if val_idx != allidx:
+                    bad('validation-sets-do-not-partition-the-table', f'rows in the validation sets: {val_idx}; rows of the table: {allidx}')
+                    continue
+                for k, f in enumerate(folds):
+                    both = sorted(list(f.validation.index) + list(f.estimation.index))
+                    if both != allidx:
+                        bad('estimation-and-validation-do-not-partition-the-table', f'fold {k}: estimation+validation rows {both}')
+                        break
+                    l1, g1 = ll_grad(f.estimation)
+                    l2, g2 = ll_grad(f.validation)
+                    if not close(l1 + l2, ref[0], 1e-9) or not all(close(a + c, w, 1e-8) for a, c, w in zip(g1, g2, ref[1])):
+                        bad('parts-do-not-add-up', f'fold {k}: LL {l1}+{l2} vs {ref[0]}; gradient {g1}+{g2} vs {ref[1]}')
+                        break
+
+
 def tasks(tier, seed):
     t = [dict(part='panel')]
+    for n in ((5, 7) if tier == 'quick' else (5, 7, 9)):
+        t.append(dict(part='dbsplit', n=n, tier=tier))
     hl = history_list(tier)
     for i in range(0, len(hl), 12):
         t.append(dict(part='history', lo=i, hi=min(i + 12, len(hl)), tier=tier))
@@ -333,6 +415,9 @@ def run_task(task):
     rec = Rec()
     if task.get('part') == 'panel':
         _panel(task, rec)
+        return rec.result()
+    if task.get('part') == 'dbsplit':
+        _dbsplit(task, rec)
         return rec.result()
     if task.get('part') == 'history':
         hl = history_list(task['tier'])
@@ -436,5 +521,9 @@ def replay(case):
         rec = Rec()
         _run_history(case['history'], rec)
         return rec.violations
+    if case.get('part') == 'dbsplit':
+        return [v for v in run_task(dict(part='dbsplit', n=case['n'], tier=case['tier']))['violations']
+                if v['case'].get('perm') == case['perm'] and v['case'].get('slices') == case['slices']
+                and v['case'].get('grouped') == case['grouped']]
     r = run_task(dict(model=case['model'], weight=case['weight'], table=case['table'], tier=case['tier']))
     return r['violations']
